@@ -15,6 +15,81 @@ func lockedErr(err error) bool {
 	return c == "ErrLocked" || c == "ErrWatchingOnly"
 }
 
+// Handle is a managed-address object obtained (and used) while the manager was
+// unlocked and kept by the caller, the way a wallet keeps the results of
+// address iterations around.
+type Handle struct {
+	MA     waddrmgr.ManagedAddress
+	Src    string
+	Secret bool // script addresses: the script is secret (P2SH / secret witness scripts)
+}
+
+// CollectHandles (C05): while unlocked, obtain managed-address objects through
+// every API that hands them out (lookup, per-account iteration, active-address
+// iteration), use their private accessors once (which is what fills their
+// per-object caches) and retain them for the locked-state battery.
+func (w *World) CollectHandles(st Stats) {
+	if !w.Unlocked() || w.WatchOnly {
+		return
+	}
+	secret := map[string]bool{}
+	for _, e := range w.Addrs {
+		if e.Secret {
+			secret[e.Str] = true
+		}
+	}
+	use := func(ma waddrmgr.ManagedAddress, src string) {
+		h := Handle{MA: ma, Src: src}
+		switch a := ma.(type) {
+		case waddrmgr.ManagedPubKeyAddress:
+			if k, err := a.PrivKey(); err != nil || k == nil {
+				return // availability is C03's business
+			}
+		case waddrmgr.ManagedScriptAddress:
+			if !secret[ma.Address().String()] {
+				return
+			}
+			h.Secret = true
+			if _, err := a.Script(); err != nil {
+				return
+			}
+		default:
+			return
+		}
+		if len(w.Handles) < 60 {
+			w.Handles = append(w.Handles, h)
+			st["c05-handles-retained:"+src]++
+		}
+	}
+	w.View(func(ns walletdb.ReadBucket) error {
+		addrs := w.SortedAddrs()
+		for i := 0; i < 4 && len(addrs) > 0; i++ {
+			e := addrs[w.R.Intn(len(addrs))]
+			if ma, err := w.M.Address(ns, e.A); err == nil {
+				use(ma, "Address")
+			}
+		}
+		for _, sm := range w.M.ActiveScopedKeyManagers() {
+			accts := []uint32{waddrmgr.DefaultAccountNum, waddrmgr.ImportedAddrAccount}
+			for _, acct := range accts {
+				// the iteration holds the scoped manager's lock: keep the
+				// objects, use them once it has returned
+				var got []waddrmgr.ManagedAddress
+				sm.ForEachAccountAddress(ns, acct, func(ma waddrmgr.ManagedAddress) error {
+					if len(got) < 4 || w.R.Intn(4) == 0 {
+						got = append(got, ma)
+					}
+					return nil
+				})
+				for _, ma := range got {
+					use(ma, "ForEachAccountAddress")
+				}
+			}
+		}
+		return nil
+	})
+}
+
 // AccessBattery (C05): in a locked or watch-only state every operation that
 // would reveal or use private material must fail with a locked /
 // watching-only error and return nothing. maxAddrs bounds the number of
@@ -85,6 +160,35 @@ func (w *World) AccessBattery(st Stats, maxAddrs int) *Diff {
 				st["c05-locked-probes"]++
 				if err == nil || sc != nil {
 					d = df("c05:locked-access:Script", "manager is %s but Script() of secret %s returned the script", w.stateName(), e.Str)
+					return nil
+				}
+			}
+		}
+		// objects handed out, and used, while the manager was unlocked
+		for _, h := range w.Handles {
+			if d != nil {
+				return nil
+			}
+			switch a := h.MA.(type) {
+			case waddrmgr.ManagedPubKeyAddress:
+				k, err := a.PrivKey()
+				st["c05-locked-probes"]++
+				st["c05-retained-handle-probes"]++
+				if err == nil || k != nil {
+					d = df("c05:locked-access:retained-handle:PrivKey", "manager is %s but PrivKey() on an object of %s obtained through %s while unlocked returned a key", w.stateName(), h.MA.Address(), h.Src)
+					return nil
+				}
+				wif, err := a.ExportPrivKey()
+				if err == nil || wif != nil {
+					d = df("c05:locked-access:retained-handle:ExportPrivKey", "manager is %s but ExportPrivKey() on an object of %s obtained through %s while unlocked returned a key", w.stateName(), h.MA.Address(), h.Src)
+					return nil
+				}
+			case waddrmgr.ManagedScriptAddress:
+				sc, err := a.Script()
+				st["c05-locked-probes"]++
+				st["c05-retained-handle-probes"]++
+				if err == nil || sc != nil {
+					d = df("c05:locked-access:retained-handle:Script", "manager is %s but Script() on an object of secret script address %s obtained through %s while unlocked returned the script", w.stateName(), h.MA.Address(), h.Src)
 					return nil
 				}
 			}
